@@ -225,7 +225,11 @@ def random_doc(rng, max_nodes=40, anim_styles=False, space=False, ruby=True, rub
             if not own:
               disp[sk - 1] = ""
               anim[sk - 1] = []
-            for _s in range(rng.choice([1, 2, 2, 3]) if (loose or space) and rng.random() < 0.7 else 1):
+            # (a base or an annotation may be EMPTY - no child at all - and still carry timing of its own)
+            nspans = rng.choice([1, 2, 2, 3]) if (loose or space) and rng.random() < 0.7 else 1
+            if loose and rng.random() < 0.12:
+              nspans = 0
+            for _s in range(nspans):
               own_s = loose and rng.random() < 0.3
               sp = add("span", sk, timed=own_s, regable=False)
               if not own_s:
@@ -286,6 +290,9 @@ def random_doc(rng, max_nodes=40, anim_styles=False, space=False, ruby=True, rub
     for k in range(len(kind)):
       if kind[k] == "text" and rng.random() < 0.45:
         ad["text"][k] = rng.choice(lits)
+  import zlib
+  if nr and zlib.crc32(repr((kind, parent, b, e, reg)).encode()) % 8 == 0:
+    ad["reserved_ids"] = 1        # the first region is called what the library calls the region it makes up (isdu.region_name)
   return ad
 
 
